@@ -28,6 +28,8 @@ func init() {
 		c20Bounds(c)
 		c20Emitter(c)
 		c20Ids(c, "C20.5")
+		listenerIdentity(c, "C20.8")
+		mapAggregatesSnapshot(c, "C20.9")
 	})
 }
 
